@@ -11,7 +11,7 @@ from harness import core
 from harness.core import cN, cZ, cbool, clist
 
 IMPORTS = ("From Coq Require Import List ZArith NArith Bool.\n"
-           "From Jade Require Import Base System SystemMonitors.")
+           "From Jade Require Import Base System SystemMonitors SystemFault.")
 
 
 # ---------------------------------------------------------------------------------------------
@@ -166,7 +166,7 @@ def accept_traces(items, name="sys", timeout=900, shard=12):
         for n, (scn, evs, src) in enumerate(encs[k:k + shard]):
             body.append(f"Definition sc{n} : scenario := {scn}.")
             body.append(f"Definition tr{n} : list event := [\n  " + ";\n  ".join(evs) + "].")
-        body.append("Eval vm_compute in [" + "; ".join(f"verdict sc{n} tr{n}" for n in range(len(encs[k:k + shard]))) + "].")
+        body.append("Eval vm_compute in [" + "; ".join(f"verdict2 sc{n} tr{n}" for n in range(len(encs[k:k + shard]))) + "].")
         jobs.append((f"{name}_{k}", "\n".join(body) + "\n"))
     outs = core.coq_eval_many(jobs, timeout)
     res = []
@@ -174,15 +174,16 @@ def accept_traces(items, name="sys", timeout=900, shard=12):
         vals = core.eval_results(o)
         if len(vals) != 1:
             raise core.BuildError("unexpected coqc output for traces", o[-2000:])
-        # each verdict prints as (option N, list bool)
-        for m in re.finditer(r"\((None|Some (\d+))\s*,\s*\[([^\]]*)\]\)", vals[0]):
+        # each verdict prints as (option N, list bool, bool)
+        for m in re.finditer(r"\((None|Some (\d+))\s*,\s*\[([^\]]*)\]\s*,\s*(true|false)\s*,\s*(None|Some (\d+))\)", vals[0]):
             rej = None if m.group(1) == "None" else int(m.group(2))
             mons = [x.strip() == "true" for x in m.group(3).split(";") if x.strip()]
-            res.append((rej, mons))
+            res.append((rej, mons, (m.group(4) == "true", None if m.group(5) == "None" else int(m.group(6)))))
     assert len(res) == len(encs), (len(res), len(encs))
     out = []
-    for (rej, mons), (scn, evs, src) in zip(res, encs):
-        out.append({"accepted": rej is None, "reject_event": rej, "reject_index": (src[rej] if rej is not None and rej < len(src) else None),
+    for (rej, mons, (ff, ffi)), (scn, evs, src) in zip(res, encs):
+        out.append({"accepted": rej is None, "fault_free": ff, "first_fault": (evs[ffi] if ffi is not None and ffi < len(evs) else None),
+                    "first_fault_index": (src[ffi] if ffi is not None and ffi < len(src) else None), "reject_event": rej, "reject_index": (src[rej] if rej is not None and rej < len(src) else None),
                     "reject_term": (evs[rej] if rej is not None and rej < len(evs) else None),
                     "monitors": dict(zip(MONITOR_NAMES, mons)), "n_events": len(evs)})
     return out
